@@ -35,7 +35,7 @@ ASSUMPTIONS = [
     'reversed TIF files whose first next-word is 0x100 or 0x10000 are excluded (two byte orders indistinguishable)',
     'no stored-byte fault: the statement is about files written conformantly',
 ]
-PROBES = ['record_number_wraps', 'read_ends_at_pr_boundary', 'read_ends_at_record_boundary', 'skip_across_ge2_pr', 'seek_back_after_eof', 'seek_partial_seek_same',
+PROBES = ['two_readers_interleaved', 'record_number_wraps', 'read_ends_at_pr_boundary', 'read_ends_at_record_boundary', 'skip_across_ge2_pr', 'seek_back_after_eof', 'seek_partial_seek_same',
           'payload_lt_one_pr', 'pr_with_1_byte', 'tif_reversed', 'tif_normal', 'none_at_record_end', 'run_on_into_next', 'eof_reached',
           'foreign_chunking', 'written_reread', 'strip_tif', 'seek_cur', 'tell_checked', 'all_trailers']
 
@@ -81,7 +81,13 @@ def gen_ops(rng, model):
 def generate(seed, tier):
     rng = seeds.Rng(seed)
     model = L.gen_model(rng)
-    return {'world': 'lis_phys', 'model': model, 'ops': gen_ops(rng, model), 'reread_written': rng.chance(0.5)}
+    sc = {'world': 'lis_phys', 'model': model, 'ops': gen_ops(rng, model), 'reread_written': rng.chance(0.5)}
+    if rng.chance(0.2):
+        # a second reader on another file is alive at the same time: [k, -1] = before operation k it reads its next whole record
+        other = L.gen_model(seeds.Rng(rng.getrandbits(32)), max_records=6)
+        steps = [[k, -1] for k in sorted(rng.randrange(0, len(sc['ops']) + 1) for _ in range(rng.randrange(1, 8)))]
+        sc['shadow'] = {'model': other, 'steps': steps}
+    return sc
 
 
 def _tail(model):
@@ -222,7 +228,21 @@ def execute(scenario):
             out.append(acc)
         return out
 
-    for idx, op in enumerate(scenario['ops']):
+    shadow = None
+    if scenario.get('shadow'):
+        res.probe('two_readers_interleaved')
+        sh_by, sh_layout = L.build(scenario['shadow']['model'])
+        try:
+            shadow = {'rd': File.FileRead(SimFile(sh_by, clock, name='other.lis'), 'other.lis', False), 'recs': sh_layout['records'], 'r': 0, 'o': 0, 'dead': False}
+        except Exception as err:
+            res.violation('open-exception', f'second reader: {type(err).__name__}: {err}', exc=type(err).__name__, tif=scenario['shadow']['model']['tif'])
+    for idx, op in enumerate(list(scenario['ops']) + [None]):
+        if shadow is not None:
+            for kk, size in scenario['shadow']['steps']:
+                if kk == idx and not shadow['dead']:
+                    shadow_step(res, shadow, size, idx)
+        if op is None:
+            break
         kind = op[0]
         res.op(kind)
         at_eof = r >= nrec
@@ -411,6 +431,30 @@ def execute(scenario):
     return res
 
 
+def shadow_step(res, sh, size, idx):
+    """The second reader (its own file) reads its next whole record, as check_reread_written does; what it returns is held to
+    what was written to that file."""
+    res.op('shadow_read')
+    recs = sh['recs']
+    if sh['r'] >= len(recs):
+        return
+    want = recs[sh['r']]['payload']
+    try:
+        got = sh['rd'].readLrBytes()
+    except Exception as err:
+        res.violation('read-exception', f'before op {idx}: second reader (alive at the same time) raised {type(err).__name__}: {err} at record {sh["r"]}',
+                      exc=type(err).__name__, second_reader=True)
+        sh['dead'] = True
+        return
+    res.ev('shadow', idx, sh['r'], seeds.digest(got))
+    if got != want:
+        res.violation('read-mismatch', f'before op {idx}: second reader (alive at the same time) record {sh["r"]}: '
+                      f'{None if got is None else len(got)} bytes returned, {len(want)} written', second_reader=True)
+        sh['dead'] = True
+        return
+    sh['r'] += 1
+
+
 def _crosses(bounds, a, b):
     return sum(1 for x in bounds[:-1] if a < x < b)
 
@@ -423,6 +467,12 @@ def _fd(a, b):
 
 
 def candidates(scenario):
+    if scenario.get('shadow'):
+        yield {k: v for k, v in scenario.items() if k != 'shadow'}
+        st = scenario['shadow']['steps']
+        for j in range(len(st)):
+            if len(st) > 1:
+                yield dict(scenario, shadow=dict(scenario['shadow'], steps=st[:j] + st[j + 1:]))
     import copy
     ops = scenario['ops']
     model = scenario['model']
